@@ -234,7 +234,13 @@ class DocActions(object):
     for row_id in table.row_ids:
       value = old_column.raw_get(row_id)
       converted = new_column.convert(value)
-      new_column.set(row_id, converted if equal_encoding(value, converted) else value)
+      value = converted if equal_encoding(value, converted) else value
+      new_column.set(row_id, value)
+      if not equal_encoding(new_column.raw_get(row_id), value):
+        # The column adjusted the value on the way in (a Bool column turns 0 and 1 into False and
+        # True). That is a visible conversion too, which only the caller can record and undo;
+        # this action on its own has to stay undoable by its opposite.
+        column.BaseColumn.set(new_column, row_id, value)
 
     # Generate the undo action.
     self._engine.out_actions.undo.append(actions.ModifyColumn(table_id, col_id, undo_col_info))
